@@ -441,12 +441,26 @@ def rule_cleanup(program, ctx):
     else:
         ctx.bad(finding_func(P, rid, sc, "the limiter's idle-state cleanup no longer runs when a connection ends", text="def start_client(...) :: cleanup"))
     cl = program.func("nostr_relay.rate_limiter:RateLimiter.cleanup")
-    txt = ast.unparse(cl)
-    if "if ip == 'global':\n            continue" in txt or "ip == 'global'" in txt:
+    # the loop over the per-address histories leaves the 'global' entry alone, whatever the loop variable is called
+    skips = False
+    for lp in [l for l in walk_no_nested(cl) if isinstance(l, ast.For) and "recent_commands" in ast.unparse(l.iter)]:
+        key = lp.target.elts[0].id if isinstance(lp.target, ast.Tuple) and lp.target.elts and isinstance(lp.target.elts[0], ast.Name) else (lp.target.id if isinstance(lp.target, ast.Name) else None)
+        for c in ast.walk(lp):
+            if isinstance(c, ast.Compare) and len(c.ops) == 1 and isinstance(c.ops[0], (ast.Eq, ast.NotEq, ast.In, ast.NotIn)) and key is not None \
+                    and key in (dotted(c.left), dotted(c.comparators[0])) and "'global'" in ast.unparse(c):
+                skips = True
+    if skips:
         ctx.ok(rid, cl, "cleanup skips the global scope")
     else:
         ctx.bad(finding_func(P, rid, cl, "cleanup no longer skips the global scope", text="def cleanup(...) :: global"))
-    if "len(cleared) == len(commands)" in txt:
+    all_idle = False
+    for lp in [l for l in walk_no_nested(cl) if isinstance(l, ast.For) and "recent_commands" in ast.unparse(l.iter)]:
+        val = lp.target.elts[1].id if isinstance(lp.target, ast.Tuple) and len(lp.target.elts) == 2 and isinstance(lp.target.elts[1], ast.Name) else None
+        for c in ast.walk(lp):
+            if isinstance(c, ast.Compare) and len(c.ops) == 1 and isinstance(c.ops[0], ast.Eq) and all(isinstance(x, ast.Call) and call_name(x) == "len" and x.args for x in (c.left, c.comparators[0])) \
+                    and val is not None and val in (dotted(c.left.args[0]), dotted(c.comparators[0].args[0])):
+                all_idle = True
+    if all_idle:
         ctx.ok(rid, cl, "an address is dropped only when all its command deques are idle")
     else:
         ctx.bad(finding_func(P, rid, cl, "cleanup drops an address although some of its command deques are still active", text="def cleanup(...) :: all idle"))
